@@ -182,6 +182,174 @@ pub fn cross_check(g: &Gad, assignment: &[F], seed: u64, what: &str) -> Result<(
 }
 
 // ------------------------------------------------------------------
+// propagation adversary (model-free)
+
+/// Greedy constraint propagation on the UNCHANGED layout: a malicious prover
+/// who has decided the values of the `pinned` witnesses (already written into
+/// `start`) and now tries to make every row hold by re-solving one other
+/// witness per broken identity:
+///
+/// * an arithmetic row is solved for one of its wires (a witness that occupies
+///   exactly one wire of the row, has a non-zero coefficient and has not been
+///   decided yet);
+/// * a broken base-4 step `x - 4y in {0,1,2,3}` of a range row is solved for
+///   `x` (or, when `x` is decided, for `y`) keeping the digit of the honest
+///   table (or, for `y`, any digit that makes the division exact);
+///
+/// rows of the other families are not re-solved (the attempt fails when one
+/// of them breaks). Witness choice among the candidates: allocation order,
+/// latest first (`late = true`) or earliest first. Returns the completed
+/// assignment when every row identity holds.
+pub fn propagate(g: &Gad, start: &[F], pinned: &[usize], late: bool) -> Option<Vec<F>> {
+    use spec::{Q_ARITH, Q_F, Q_L, Q_M, Q_O, Q_R, Q_RANGE};
+    let layout = &g.layout;
+    let nrows = layout.rows.len();
+    let size = layout.size().max(1);
+    let mut a = start.to_vec();
+    let mut decided = vec![false; a.len()];
+    for i in pinned {
+        if *i < decided.len() {
+            decided[*i] = true;
+        }
+    }
+    // the constant witnesses ZERO and ONE are what they are
+    for i in 0..2.min(decided.len()) {
+        decided[i] = true;
+    }
+    // rows that read each witness (a row also reads the a, b, d wires of its successor)
+    let mut uses: Vec<Vec<usize>> = vec![Vec::new(); a.len()];
+    for (i, r) in layout.rows.iter().enumerate() {
+        for k in 0..4 {
+            uses[r.w[k]].push(i);
+            if k != 2 {
+                uses[r.w[k]].push((i + size - 1) % size);
+            }
+        }
+    }
+    let mut table = spec::wire_table(layout, &a);
+    let set = |a: &mut Vec<F>, table: &mut Vec<[F; 4]>, w: usize, v: F| {
+        a[w] = v;
+        for (i, r) in layout.rows.iter().enumerate() {
+            for k in 0..4 {
+                if r.w[k] == w {
+                    table[i][k] = v;
+                }
+            }
+        }
+    };
+    let honest_table = spec::wire_table(layout, &g.wit);
+    let mut queue: std::collections::VecDeque<usize> = (0..nrows).collect();
+    let mut steps = 0usize;
+    let four = F::from(4u64);
+    let four_inv = four.invert().unwrap();
+    while let Some(i) = queue.pop_front() {
+        if i >= nrows {
+            continue;
+        }
+        let mut bad = Vec::new();
+        spec::eval_row(layout, &table, &g.pi_dense, i, &mut bad);
+        let Some(first) = bad.first() else { continue };
+        steps += 1;
+        if steps > 4 * a.len() + 16 {
+            return None;
+        }
+        let r = &layout.rows[i];
+        let v = spec::row_vals(&table, i);
+        let mut change: Option<(usize, F)> = None;
+        match first.family {
+            "arithmetic" => {
+                let qa = r.sel[Q_ARITH];
+                let pi = g.pi_dense.get(i).copied().unwrap_or(F::zero());
+                let res = qa * spec::arith_inner(&r.sel, &v) + pi;
+                let coef = [
+                    qa * (r.sel[Q_M] * v.b + r.sel[Q_L]),
+                    qa * (r.sel[Q_M] * v.a + r.sel[Q_R]),
+                    qa * r.sel[Q_O],
+                    qa * r.sel[Q_F],
+                ];
+                let cur = [v.a, v.b, v.c, v.d];
+                let mut cands: Vec<(usize, F)> = Vec::new();
+                for k in 0..4 {
+                    let w = r.w[k];
+                    if decided[w] || r.w.iter().filter(|x| **x == w).count() != 1 {
+                        continue;
+                    }
+                    if let Some(inv) = Option::<F>::from(coef[k].invert()) {
+                        cands.push((w, cur[k] - res * inv));
+                    }
+                }
+                cands.sort_by_key(|c| c.0);
+                change = if late { cands.last().copied() } else { cands.first().copied() };
+            }
+            "range" if r.sel[Q_RANGE] != F::zero() => {
+                // steps (x, y): (c, d), (b, c), (a, b), (d_next, a)
+                let nx = (i + 1) % size;
+                let next_d_w = if nx < nrows { Some(layout.rows[nx].w[3]) } else { None };
+                let pairs: [(Option<usize>, F, usize, F, F, F); 4] = [
+                    (Some(r.w[2]), v.c, r.w[3], v.d, honest_table[i][2], honest_table[i][3]),
+                    (Some(r.w[1]), v.b, r.w[2], v.c, honest_table[i][1], honest_table[i][2]),
+                    (Some(r.w[0]), v.a, r.w[1], v.b, honest_table[i][0], honest_table[i][1]),
+                    (next_d_w, v.d_n, r.w[0], v.a, honest_table[nx][3], honest_table[i][0]),
+                ];
+                let k = spec::RANGE_NAMES.iter().position(|n| *n == first.component).unwrap_or(0);
+                let (xw, x, yw, y, hx, hy) = pairs[k];
+                let digit = hx - four * hy;
+                match xw {
+                    Some(xw) if !decided[xw] => change = Some((xw, four * y + digit)),
+                    _ => {
+                        if !decided[yw] {
+                            // y = (x - digit') / 4 for the digit that keeps the honest one
+                            change = Some((yw, (x - digit) * four_inv));
+                        }
+                    }
+                }
+            }
+            _ => {}
+        }
+        let (w, val) = change?;
+        set(&mut a, &mut table, w, val);
+        decided[w] = true;
+        for u in &uses[w] {
+            queue.push_back(*u);
+        }
+        queue.push_back(i);
+    }
+    if g.eval(&a).is_empty() {
+        Some(a)
+    } else {
+        None
+    }
+}
+
+/// Run the propagation adversary in both witness orders; `claim` decides
+/// whether a completed assignment contradicts the property (e.g. the output
+/// witness carries another value than the specification's). Returns the
+/// description of the first contradiction, confirmed with the real prover.
+pub fn propagation_attack(
+    g: &Gad,
+    pins: &[(usize, F)],
+    seed: u64,
+    what: &str,
+    claim: impl Fn(&[F]) -> bool,
+) -> Result<Option<String>, Fail> {
+    let start = g.with(pins);
+    let pinned: Vec<usize> = pins.iter().map(|p| p.0).collect();
+    for late in [true, false] {
+        if let Some(a) = propagate(g, &start, &pinned, late) {
+            if claim(&a) {
+                let real = g.prove_assignment(&a, seed)?;
+                return Ok(Some(format!(
+                    "{what}: after deciding {} witness(es) the remaining wires can be re-solved row by row ({} order) so that every identity holds (real prover+verifier: {real:?})",
+                    pins.len(),
+                    if late { "latest-first" } else { "earliest-first" }
+                )));
+            }
+        }
+    }
+    Ok(None)
+}
+
+// ------------------------------------------------------------------
 // integer helpers
 
 /// r - 1 split at bit nb: (r_high, r_low)
